@@ -23,8 +23,8 @@ LEVEL_NOTE = "trusted: the harness's set of inserted keys"
 
 
 def runs(tier, seed):
-    n = 4000 if tier == "quick" else 300000
-    return [Run("cuckoo", cases=n, params={"maxsize": 4000, "maxops": 1500}, timeout=1800, name="cuckoo")]
+    n = 2000 if tier == "quick" else 60000  # ~0.1 s CPU per case under ASan
+    return [Run("cuckoo", cases=n, params={"maxsize": 4000, "maxops": 1500}, timeout=3600, name="cuckoo")]
 
 
 def check(rec, st):
